@@ -16,7 +16,7 @@ from .. import gen_im, gen_mf, pools
 
 ID = "C05"
 LEVEL = "exploration"
-RUNS = {"quick": 3200, "thorough": 100000}
+RUNS = {"quick": 6400, "thorough": 100000}
 REQUIRED_FAULTS = ["F8.older_format_on_disk"]
 MACHINES = ["M-CI", "M-IM", "M-RP", "M-TI", "M-DI"]
 ASSUMPTIONS = ["rpms 0.3 and composeinfo < 0.3 have no format document in the repository: their down-converters follow the property text "
